@@ -40,7 +40,7 @@ class LogDict(dict):
     def __setitem__(self, key, value):
         _tick("write", (self._vpath, key))
         STATS["writes"] += 1
-        EVENTS.append(("w", self._vpath, key))
+        EVENTS.append(("w", self._vpath, key, value, "i"))
         dict.__setitem__(self, key, value)
 
     def __reduce__(self):
@@ -59,7 +59,7 @@ class LogList(list):
     def __setitem__(self, key, value):
         _tick("write", (self._vpath, key))
         STATS["writes"] += 1
-        EVENTS.append(("w", self._vpath, key))
+        EVENTS.append(("w", self._vpath, key, value, "i"))
         list.__setitem__(self, key, value)
 
     def __reduce__(self):
@@ -79,9 +79,9 @@ class LogObj(object):
             object.__setattr__(self, k, v)
 
     def __setattr__(self, key, value):
-        _tick("write", (self._vpath, "." + key))
+        _tick("write", (self._vpath, key))
         STATS["writes"] += 1
-        EVENTS.append(("w", self._vpath, "." + key))
+        EVENTS.append(("w", self._vpath, key, value, "a"))
         object.__setattr__(self, key, value)
 
     def _items(self):
